@@ -565,6 +565,49 @@ def run_free_lookup(r, res):
         w.close()
 
 
+def run_module_namespace_race(res):
+    """first-use initialisation of a <%namespace module=...>: two free-running renders, the second starting while the
+    first is still inside the import of the (slow to import, never imported before) module.  Each must produce what
+    it produces alone; the import system's own lock is what the waiting render relies on."""
+    import sys as _sys
+    import time as _time
+
+    _st["nsrace"] = _st.get("nsrace", 0) + 1
+    name = "verif_c16_nsmod_%d_%d" % (os.getpid(), _st["nsrace"])
+    d = tempfile.mkdtemp(prefix="c16ns-")
+    with open(os.path.join(d, name + ".py"), "w") as f:
+        f.write("import time\nEARLY = 1\ntime.sleep(0.3)\n\ndef greet(context, who):\n    return 'hi ' + who\n")
+    _sys.path.insert(0, d)
+    try:
+        lk = _st["TemplateLookup"]()
+        lk.put_string("/m.html", '<%%namespace name="h" module="%s"/>[${h.greet(who)}]' % name)
+        tpl = lk.get_template("/m.html")
+        outs = {}
+
+        def work(i, delay):
+            _time.sleep(delay)
+            try:
+                outs[i] = ("out", tpl.render_unicode(who="W%d" % i))
+            except Exception as e:
+                outs[i] = ("exc", "%s: %s" % (type(e).__name__, e))
+
+        ths = [threading.Thread(target=work, args=(0, 0.0), daemon=True), threading.Thread(target=work, args=(1, 0.1), daemon=True)]
+        for t in ths:
+            t.start()
+        for t in ths:
+            t.join(30)
+        res.evaluations += 1
+        res.count("module_namespace_first_use_races")
+        for i in range(2):
+            if outs.get(i) != ("out", "[hi W%d]" % i):
+                res.violate("render-differs-from-solo", "first use of <%%namespace module=...> by two threads: thread %d got %r, alone it renders %r" % (i, outs.get(i), "[hi W%d]" % i),
+                            witness="module namespace imported for the first time by two renders at once")
+    finally:
+        _sys.path.remove(d)
+        _sys.modules.pop(name, None)
+        shutil.rmtree(d, ignore_errors=True)
+
+
 # ------------------------------------------------------------------ plumbing
 def gen_cases(tier, seed):
     for name, (_, threads, _, cbound) in SCENARIOS.items():
@@ -632,6 +675,7 @@ def run_case(case):
         r = common.rng_for(case["seed"], "c16free", case["index"])
         run_free_lookup(r, res)
         run_render_schedule(None, res, {"kind": "free"}, nthreads=3, free=True)
+        run_module_namespace_race(res)
     elif k == "replay":
         st = sched.DFS(case["prefix"], case["bound"])
         run_schedule(case["scenario"], st, case["line"], res, case)
